@@ -118,6 +118,16 @@ def body_dist(case):
     check(np.array_equal(out, np.asarray(again, dtype=float), equal_nan=True), "dist:second-call-differs", "the same call on the same estimator gives another result")
     check(np.array_equal(B, B0), "dist:input-modified", "caller's target array modified")
     check(out.shape == B.shape, "dist:shape", f"{out.shape}")
+    if int(abs(float(np.sum(B))) * 1e6) % 6 == 0 and sv.m >= 3:
+        # a large target set (an image): the same targets at the END of 65 573 rows that all have the neutral chromaticity
+        # (never binding): their scaled versions are the ones of the small call
+        fill = np.outer(np.linspace(0.5, 2.0, 65536 + 37), chat * max(float(np.max(B.sum(axis=1))), 1.0))
+        with calling(f"dist scaling of {fill.shape[0] + B.shape[0]} targets"):
+            with np.errstate(all="ignore"):
+                big = np.asarray(getattr(est, _name(B, "dist_scaling"))(np.vstack([fill, B]), neutral_point=(None if case["neutral"] is None else neutral), relative=rel), dtype=float)
+        check(big.shape == (fill.shape[0] + B.shape[0], sv.m), "dist:large-set-shape", f"{big.shape}")
+        check(np.all(np.abs(big[-B.shape[0]:] - out) <= 1e-9 * (1.0 + np.abs(out))), "dist:depends-on-set-size",
+              "targets scaled within a set of 65 573 targets (all others at the neutral chromaticity) differ from the same targets scaled alone")
     check(np.all(np.isfinite(out)), "dist:nonfinite", f"non-finite output {out.tolist()}")
     labs = sv.labels() + ["relative" if rel else "absolute", "explicit-neutral" if case["neutral"] is not None else "default-neutral", f"regime:{case['regime']}"]
     zero = np.all(B == 0, axis=1)
